@@ -557,6 +557,12 @@ Definition check_step_spec (which : N) (cfg : pcfg) (last : bool) (ps : pstate) 
   | 0 => match which with
          | 4 => if (cfg.(pc_quiescent) || last) && negb (observers_ok md' (update_views md dg ob ps.(ps_view))) then 12 else 0
          | 8 => if hold_ok md' dg then 0 else 13
+         (* nothing is open, or held, in the implementation that the model has closed ("outlives its owner") *)
+         | 9 => if forallb (fun x => match find_sd md' x.(d_sid) with
+                                     | Some y => N.eqb (N.lor x.(d_pubs) y.(d_pubs)) y.(d_pubs) && (x.(d_nsubs) <=? y.(d_nsubs))
+                                     | None => true end) dg.(g_sessions)
+                   && (negb (N.eqb dg.(g_mcupending) md'.(g_mcupending)) || (dg.(g_mcuopen) <=? md'.(g_mcuopen)))
+                then 0 else 14
          | _ => 0 end
   | n => n
   end.
